@@ -796,6 +796,8 @@ def render_lean(facts):
     L.append(f"  entries := [{', '.join(map(str, facts['entries']))}]")
     L.append(f"  nBuiltins := {facts['n_builtins']}")
     L.append(f"  priv := [{', '.join(map(str, facts['private']))}]")
+    L.append(f"  nNames := {len(facts['names'])}")
+    L.append(f"  slotBits := {(len(facts['modules']) + 2).bit_length()}")
     L.append("")
     L.append("/-- display strings of the interned identifiers (used by the driver only, never by a theorem) -/")
     L.append("def names : Array String := #[")
